@@ -112,7 +112,7 @@ def build_container(kind, sigs):
     """zip / sbt / lca / sql collections of the given signatures, inserted in this order"""
     _n[0] += 1
     if kind == "lin":
-        return LinearIndex(sigs)
+        return LinearIndex(sigs)           # (`xdb lin` goes through build_linear: see the op)
     if kind == "lazy":
         from sourmash.index import LazyLinearIndex
         return LazyLinearIndex(LinearIndex(sigs))       # what `--linear` wraps every database in
@@ -184,6 +184,99 @@ class State:
         self.gd = None
         self.dead = False
         self.xgd = None
+        self.route = 0          # per-case counter the model does not see: which of several equivalent routes to take
+        self.hist = []          # every GatherResult handed out in this case (uncopied) with its first observation
+        self.gd_noid = None
+
+
+def route(S, n):
+    S.route += 1
+    return S.route % n
+
+
+def build_linear(S, sigs):
+    """the same LinearIndex by four routes: constructor, empty + insert(), save() + load(), MultiIndex of two halves"""
+    r = route(S, 4) if sigs else 0
+    if r == 0:
+        return LinearIndex(sigs)
+    if r == 1:
+        idx = LinearIndex()
+        for x in sigs:
+            idx.insert(x)
+        return idx
+    if r == 2:
+        _n[0] += 1
+        p = os.path.join(tmpdir(), f"lin{_n[0]}.sig")
+        LinearIndex(sigs).save(p)
+        return LinearIndex.load(p)
+    from sourmash.index import MultiIndex
+    h = (len(sigs) + 1) // 2
+    parts = [LinearIndex(sigs[:h])] + ([LinearIndex(sigs[h:])] if sigs[h:] else [])
+    return MultiIndex.load(parts, [None] * len(parts), parent="")
+
+
+def md5s(sigs):
+    return sorted(x.md5sum() for x in sigs)
+
+
+def view_db(db, sigs):
+    """everything that can be read about a collection must agree: len / bool / signatures() /
+    signatures_with_location() / the manifest (when there is one)"""
+    n = len(sigs)
+    if len(db) != n:
+        return "len"
+    if bool(db) != (n > 0):
+        return "bool"
+    want = md5s(sigs)
+    if md5s(db.signatures()) != want:
+        return "signatures"
+    if md5s(x for x, _ in db.signatures_with_location()) != want:
+        return "signatures_with_location"
+    m = getattr(db, "manifest", None)
+    if m is not None and sorted(r["md5"] for r in m.rows) != want:
+        return "manifest"
+    return None
+
+
+def view_counter(cn):
+    """CounterGather: counter / siglist / locations carry the same keys, signatures() lists them, union_found is
+    the same on a second reading and is the union of the stored matches intersected with the original query"""
+    if set(cn.counter) != set(cn.siglist) or set(cn.siglist) != set(cn.locations):
+        return "counter-keys"
+    if md5s(cn.signatures()) != sorted(cn.siglist):
+        return "signatures"
+    u1 = set(cn.union_found.hashes)
+    u2 = set(cn.union_found.hashes)
+    if u1 != u2:
+        return "union_found-twice"
+    return None
+
+
+def view_result(r, g, noid):
+    """a GatherResult against the objects it was built from and against the iterator's state"""
+    if r.md5 != r.match.md5sum() or r.name != r.match.name:
+        return "match-identity"
+    if r.intersect_bp != len(r.cmp.intersect_mh) * r.cmp_scaled:
+        return "intersect_bp"
+    if r.unique_intersect_bp != len(r.gather_comparison.intersect_mh) * r.gather_comparison.cmp_scaled:
+        return "unique_intersect_bp"
+    left = len(g.query.minhash) * g.query.minhash.scaled
+    if noid is not None:
+        left += len(noid.downsample(scaled=g.query.minhash.scaled)) * g.query.minhash.scaled
+    if r.remaining_bp != left:
+        return "remaining_bp"
+    nuw = getattr(r, "n_unique_weighted_found", None)
+    if nuw is not None and r.total_weighted_hashes and r.f_unique_weighted != nuw / r.total_weighted_hashes:
+        return "f_unique_weighted"
+    return None
+
+
+def recheck_history(S):
+    """earlier results must still read as they did when they were handed out"""
+    for r, first in S.hist:
+        if show_res(r) != first:
+            return "history:result-changed"
+    return None
 
 
 def parse_cobj(S, w):
@@ -229,23 +322,45 @@ def main():
                     res = f"ok n={len(mh)} sc={mh.scaled}"
             elif op == "db":
                 slot = int(a[0])
-                S.dbs[slot] = LinearIndex([S.sigs[int(x)] for x in a[1:]])
+                members = [S.sigs[int(x)] for x in a[1:]]
+                S.dbs[slot] = build_linear(S, members)
                 res = f"ok {len(S.dbs[slot])}"
+                v = view_db(S.dbs[slot], members)
+                if v:
+                    res += " V=db:" + v
             elif op == "cg":
                 c, d, q, thr = map(int, a)
-                cn = S.dbs[d].counter_gather(S.sigs[q], thr)
+                cn = S.dbs[d].counter_gather(S.sigs[q], float(thr) if route(S, 2) else thr)
                 S.cnts[c] = cn
                 res = "ok " + show_counter(cn)
+                v = view_counter(cn)
+                if v is None and route(S, 4) == 0:
+                    # the same call with the query as a mutable SourmashSignature (every other entry point of the
+                    # index accepts one)
+                    try:
+                        c2 = S.dbs[d].counter_gather(S.sigs[q].to_mutable(), thr)
+                        if show_counter(c2) != show_counter(cn):
+                            v = "mutable-query"
+                    except AttributeError:
+                        v = "rejects-mutable-query:AttributeError"
+                if v:
+                    res += " V=counter:" + v
             elif op == "peek":
                 c, q, thr = map(int, a)
                 cn = S.cnts[c]
-                r = cn.peek(S.sigs[q].minhash, threshold_bp=thr)
-                if not r:
-                    res = f"ok none sc={cn.scaled}"
-                else:
+
+                def peek_line():
+                    mh = S.sigs[q].minhash
+                    r = cn.peek(mh.to_mutable() if route(S, 2) else mh, threshold_bp=thr)
+                    if not r:
+                        return f"ok none sc={cn.scaled}"
                     sr, inter = r
-                    res = (f"ok name={sr.signature.name} md5={int(sr.signature.md5sum(), 16)} score{bitsF(sr.score)}"
-                           f" sc={cn.scaled} inter={join(sorted(inter.hashes))}")
+                    return (f"ok name={sr.signature.name} md5={int(sr.signature.md5sum(), 16)} score{bitsF(sr.score)}"
+                            f" sc={cn.scaled} inter={join(sorted(inter.hashes))}")
+                res = peek_line()
+                before = show_counter(cn)
+                if peek_line() != res or show_counter(cn) != before:
+                    res += " V=peek-twice"          # peek is read-only up to the (idempotent) refresh of stale counters
             elif op == "consume":
                 c, q = map(int, a)
                 cn = S.cnts[c]
@@ -275,15 +390,21 @@ def main():
                 qsig = S.sigs[q]
                 S.gd = None
                 S.dead = True
-                g = GatherDatabases(qsig, cs, threshold_bp=thr, ignore_abundance=ign,
+                g = GatherDatabases(qsig, cs, threshold_bp=float(thr) if route(S, 2) else thr, ignore_abundance=ign,
                                     noident_mh=noid, ident_mh=ident)
                 S.gd = g
+                S.gd_noid = noid
+                S.hist = []
                 S.dead = False
                 res = f"ok cmp={g.cmp_scaled} twh={g.total_weighted_hashes} nsum={g.noident_query_sum_abunds} " + show_gd(g)
             elif op == "xdb":
                 slot, kind = int(a[0]), a[1]
-                S.dbs[slot] = build_container(kind, [S.sigs[int(x)] for x in a[2:]])
+                members = [S.sigs[int(x)] for x in a[2:]]
+                S.dbs[slot] = build_linear(S, members) if kind == "lin" else build_container(kind, members)
                 res = f"ok {len(a) - 2}"
+                v = view_db(S.dbs[slot], members)
+                if v:
+                    res += " V=db:" + v
             elif op in ("search", "searchc"):
                 kw = dict(ST[a[0]])
                 bo, tnum, tden, q = bool(int(a[1])), int(a[2]), int(a[3]), int(a[4])
@@ -291,6 +412,11 @@ def main():
                 r = search_databases_with_flat_query(S.sigs[q], dbs, threshold=tnum / tden, best_only=bo, **kw)
                 l = [(x.similarity, x.match) for x in r]
                 res = "ok " + (rows(l) if op == "search" else canon_rows(l, bo))
+                for x in r:
+                    dd = dict(x.resultdict)
+                    if dd != dict(x.resultdict) or dd["similarity"] != x.similarity or dd["md5"] != x.match.md5sum():
+                        res += " V=search-resultdict"
+                        break
             elif op in ("pfall", "pfallc"):
                 q, thr = int(a[0]), int(a[1])
                 query = S.sigs[q]
@@ -305,6 +431,27 @@ def main():
                     for r in db.prefetch(query, thr):
                         l.append((r.score, r.signature))
                 res = "ok " + (rows(l) if op == "pfall" else canon_rows(l))
+                if op == "pfallc" and route(S, 2):
+                    # a read-only entry point called again on the same objects, the collections in the other order
+                    l2 = []
+                    for db in reversed(dbl):
+                        if not db:
+                            continue
+                        for r in db.prefetch(query, thr):
+                            l2.append((r.score, r.signature))
+                    if canon_rows(l2) != canon_rows(l):
+                        res += " V=prefetch-twice"
+            elif op == "xsa":
+                from sourmash.search import search_databases_with_abund_query
+                bo, tnum, tden, q = bool(int(a[0])), int(a[1]), int(a[2]), int(a[3])
+                dbs = [S.dbs[int(x)] for x in a[4:]]
+                try:
+                    r = search_databases_with_abund_query(S.sigs[q], dbs, threshold=tnum / tden, best_only=bo)
+                    res = "x ok " + canon_rows([(x.similarity, x.match) for x in r], bo)
+                except BadOp:
+                    raise
+                except BaseException as e:      # noqa: BLE001
+                    res = "x err " + exc_name(e)
             elif op == "xpfc":
                 # what `sourmash prefetch` reports: search.prefetch_database over every collection (the rows of
                 # Index.prefetch that pass PrefetchResult.pass_threshold), query flattened as the command does
@@ -315,14 +462,19 @@ def main():
                     with query.update() as query:
                         query.minhash = query.minhash.flatten()
                 l = []
+                vbad = None
+                dbl = [S.dbs[int(d)] for d in a[2:]]        # (resolve every slot first, as the model does)
                 try:
-                    for d in a[2:]:
-                        db = S.dbs[int(d)]
+                    for db in dbl:
                         if not db:
                             continue
                         for r in prefetch_database(query, db, thr):
                             l.append((r.f_match_query, r.match))
-                    res = "x ok " + canon_rows(l)
+                            d1 = dict(r.prefetchresultdict)      # the CSV view against the attributes, read twice
+                            if d1 != dict(r.prefetchresultdict) or d1["match_md5"] != r.match.md5sum()[:8] \
+                                    or d1["f_match_query"] != r.f_match_query or d1["intersect_bp"] != r.intersect_bp:
+                                vbad = "prefetchresultdict"
+                    res = "x ok " + canon_rows(l) + (" V=" + vbad if vbad else "")
                 except BadOp:
                     raise
                 except BaseException as e:      # noqa: BLE001
@@ -365,10 +517,28 @@ def main():
                     res = "bad-op"
                 else:
                     try:
-                        r = next(S.gd)
-                        res = "ok " + show_res(r) + " " + show_gd(S.gd)
+                        r = S.gd.__next__() if route(S, 2) else next(S.gd)
+                        first = show_res(r)
+                        res = "ok " + first + " " + show_gd(S.gd)
+                        v = view_result(r, S.gd, S.gd_noid) or recheck_history(S)
+                        S.hist.append((r, first))
+                        if v:
+                            res += " V=result:" + v
                     except StopIteration:
                         res = "stop " + show_gd(S.gd)
+                        v = recheck_history(S)
+                        if v is None and S.hist:
+                            # two readers in sequence on one object: the CSV view of a result must not depend on
+                            # whether its prefetch view was read before
+                            r0 = S.hist[0][0]
+                            d1 = dict(r0.gatherresultdict)
+                            r0.prefetchresultdict
+                            d2 = dict(r0.gatherresultdict)
+                            if d1 != d2:
+                                v = "gatherresultdict-after-prefetchresultdict:" + ",".join(
+                                    k for k in d1 if d1[k] != d2.get(k))
+                        if v:
+                            res += " V=" + v
                     except BaseException:
                         S.dead = True
                         raise
